@@ -9,6 +9,11 @@ pub fn spec_is_on(b: &[u8]) -> bool { b.len() >= 3 && b[0] == b'o' && b[1] == b'
 /// C04: a directive attribute is `v-name` or `vName` (v followed by '-' or an upper-case ASCII letter).
 pub fn spec_is_directive_name(b: &[u8]) -> bool { b.len() >= 2 && b[0] == b'v' && (b[1] == b'-' || (b[1] >= b'A' && b[1] <= b'Z')) }
 
+/// contract form of `directive::is_directive` (used in its Kani `ensures`)
+pub fn spec_is_directive_attr(a: &JSXAttr) -> bool {
+    match &a.name { JSXAttrName::Ident(i) => spec_is_directive_name(i.sym.as_bytes()), JSXAttrName::JSXNamespacedName(n) => spec_is_directive_name(n.ns.sym.as_bytes()) }
+}
+
 /// C04: runtime directive name = written name, `v-`/`v` prefix removed, FIRST letter lower-cased.
 /// `written` is the part of the attribute name before the first '_' (plain form) or the namespace (v-x:arg form).
 pub fn spec_directive_name(written: &[u8], out: &mut [u8; 31]) -> usize {
